@@ -11,7 +11,7 @@ import ast
 
 from .. import flow
 from .. import terms as T
-from ..asyncflow import AsyncView, rule_gates, rule_queue_discipline, rule_task_private_state, rule_thread_affinity, rule_wallclock
+from ..asyncflow import AsyncView, rule_gates, rule_handoff_topology, rule_queue_discipline, rule_task_private_state, rule_thread_affinity, rule_wallclock
 from ..asyncrt import CONN, GRAPH, NODE, mentions, queue_ops
 from ..report import Check
 from .c03 import _sampler, rule_future_guard
@@ -151,6 +151,7 @@ def run(chk: Check, model):
                             "written by another; _submit accepts a task in exactly the reference states (nothing submitted during start-up is dropped)")
     rule_task_private_state(chk, view, "C02.handoff")
     rule_gates(chk, view, "C02.handoff")
+    rule_handoff_topology(chk, view, "C02.handoff")
     # the value queued for a blocking step is a function of the popped arrival times only
     from .c04 import _max0_of_pops
     from ..asyncrt import one, popped, queue_ops
